@@ -12,7 +12,7 @@ ALPHABET = ["C", "N", "O", "*"]
 META = dict(
     bounds=dict(
         quick="all pairs of graphs (connected or not) with <=3 nodes each, both orders of the arguments, plus 4x3 and 3x4 "
-              "pairs with <=3 bonds and the 4-ring against the 4-chain; one matcher object re-used for three searches in a row; element in {C,N}, bond order in {1,2}; mcs=True and mcs=False; both MCSMatcher "
+              "pairs with <=3 bonds and the 4-ring against the 4-chain; one matcher object re-used for three searches in a row; three pairs with the first graph stored in reversed atom order; element in {C,N}, bond order in {1,2}; mcs=True and mcs=False; both MCSMatcher "
               "copies (Graph/Matcher and Graph/MTG)",
         thorough="all pairs up to 4x4 nodes (<=4 bonds)",
     ),
@@ -47,7 +47,7 @@ def partial_injections(an, bn, k):
             yield dict(zip(dom, img))
 
 
-def h_mcs(E, an, aedges, bn, bedges, impl):
+def h_mcs(E, an, aedges, bn, bedges, impl, arev=False):
     if impl == "matcher":
         from synkit.Graph.Matcher.mcs_matcher import MCSMatcher
     else:
@@ -55,7 +55,12 @@ def h_mcs(E, an, aedges, bn, bedges, impl):
     A, _ = sym_mol(E, "A", an, [tuple(e) for e in aedges], elements=("C", "N"), hcounts=(0,), orders=(1, 2))
     B, _ = sym_mol(E, "B", bn, [tuple(e) for e in bedges], elements=("C", "N"), hcounts=(0,), orders=(1, 2),
                    node_ids=[11 + i for i in range(bn)])
-    info = dict(a=aedges, b=bedges, impl=impl)
+    if arev:
+        # the first graph stored in another atom order than its ids (a relabelled / re-assembled copy)
+        from vf.graphs import relabel
+
+        A = relabel(A, {v: v for v in A.nodes}, order=list(reversed(list(A.nodes))))
+    info = dict(a=aedges, b=bedges, impl=impl, arev=arev)
     sizes = {}
     for mcs in (True, False):
         m = MCSMatcher()
@@ -121,6 +126,8 @@ def shards(tier, seed):
     pairs += [(a, b) for a in four for b in small if b[0] == 3] + [(a, b) for a in small if a[0] == 3 for b in four]
     ring4, p4 = (4, [[1, 2], [1, 3], [2, 4], [3, 4]]), (4, [[1, 2], [2, 3], [3, 4]])
     pairs += [(ring4, p4), (p4, ring4)]
+    revs = [((3, [[1, 2], [2, 3]]), (4, [[1, 2], [2, 3], [3, 4]])), ((3, [[1, 2], [2, 3]]), (3, [[1, 2], [2, 3]])),
+            ((3, [[1, 2]]), (3, [[1, 2], [1, 3], [2, 3]]))]
     if tier == "thorough":
         pairs += [pr for pr in itertools.product(four, four) if pr not in pairs]
     for i, ((an, ae), (bn, be)) in enumerate(pairs):
@@ -128,4 +135,7 @@ def shards(tier, seed):
         sh.append(dict(h="mcs", params=dict(an=an, aedges=ae, bn=bn, bedges=be, impl=impl)))
         if tier == "thorough":
             sh.append(dict(h="mcs", params=dict(an=an, aedges=ae, bn=bn, bedges=be, impl="mtg")))
+    for (an, ae), (bn, be) in revs:
+        for impl in ("matcher", "mtg"):
+            sh.append(dict(h="mcs", params=dict(an=an, aedges=ae, bn=bn, bedges=be, impl=impl, arev=True)))
     return sh
